@@ -818,7 +818,7 @@ Ltac incl_tp :=
   let Ht := fresh "Ht" in
   intros ? ? Ht;
   repeat match goal with
-  | H : context [emptycode ?b] |- _ => destruct (emptycode b)
+  | H : context [transparent ?b] |- _ => destruct (transparent b)
   | tp : tailpos |- _ => destruct tp as [[? ?]|]
   end; simpl in Ht; try discriminate; try (inversion Ht; subst; eauto).
 Ltac sci :=
